@@ -167,6 +167,24 @@ def judge(ctx, q, info, unjudged=False, must=0, mustnot=0):
             ctx.violation("re-application-differs-from-reference", f"{astx.first_diff(again, refimpl.lower_aggregates(out))} | in: {witness['query'][:300]}", witness)
     except Exception as e:
         ctx.violation(f"exc-on-reapplication:{type(e).__name__}", f"{e} | in: {witness['query'][:300]}", witness)
+    # trees that share OBJECTS below the call: what python's own `c2 = copy.copy(call); c2.args = [..]` idiom leaves behind (the func
+    # Name is one object in both calls), a bare reference to the same Name next to them, one argument object under two calls
+    import copy as _copy
+
+    calls = [n for n in astx.walk_nodes(q) if isinstance(n, ast.Call) and isinstance(n.func, ast.Name) and n.func.id in refimpl.FOLDS]
+    if calls and ctx.rnd.random() < 0.5:
+        c1 = astx.clone(ctx.rnd.choice(calls))
+        c2 = _copy.copy(c1)
+        c2.args = [astx.N("other_seq")] if ctx.rnd.random() < 0.7 else [astx.N("a"), astx.N("b")]
+        shared = ast.Tuple(elts=[c1, c2, c1.func, ast.Call(func=c1.func, args=[], keywords=[])], ctx=ast.Load())
+        s_exp = refimpl.lower_aggregates(astx.clone(shared))
+        ctx.count("inputs-sharing-objects-below-the-call")
+        try:
+            s_out = aggregate_node_transformer().visit(shared)
+            if not astx.struct_eq(s_out, s_exp):
+                ctx.violation("shared-objects-below-the-call-lowered-wrongly", f"{astx.first_diff(s_out, s_exp)} | in: ({astx.unparse(astx.clone(c1))[:120]}, <shallow copy with other arguments>, <its func name>, <a call of it without arguments>) | out: {astx.unparse(astx.clone(s_out))[:300]}", witness)
+        except Exception as e:
+            ctx.violation(f"exc-on-shared-objects:{type(e).__name__}", f"{e} | in: {witness['query'][:300]}", witness)
     if ctx.rnd.random() < 0.3:
         # history: the consumer goes on to edit what it got back, in place (keywords appended to calls, names changed ...): nothing
         # of that may show in what the transformer hands out for the next query
